@@ -67,6 +67,7 @@ func cmdCheck(args []string) {
 	repo := fs.String("repo", "/repo", "repository directory")
 	verif := fs.String("verif", "/verif", "verif directory")
 	jobs := fs.Int("jobs", 16, "parallel queries")
+	outDir := fs.String("out", "", "write evidence/replay below this directory instead of the verif directory (for trials on scratch copies)")
 	writeLedger := fs.Bool("write-ledger", false, "record obligation names for this property into ledger.json (unchanged tree only)")
 	fs.Parse(args)
 	if *tier == "" {
@@ -85,10 +86,14 @@ func cmdCheck(args []string) {
 	if *tier == "thorough" {
 		timeout, agree = 60, 2
 	}
-	replayDir := filepath.Join(*verif, "replay", *prop)
+	outBase := *verif
+	if *outDir != "" {
+		outBase = *outDir
+	}
+	replayDir := filepath.Join(outBase, "replay", *prop)
 	_ = os.RemoveAll(replayDir)
 	_ = os.MkdirAll(replayDir, 0o755)
-	evPath := filepath.Join(*verif, "evidence", *prop+".json")
+	evPath := filepath.Join(outBase, "evidence", *prop+".json")
 	_ = os.MkdirAll(filepath.Dir(evPath), 0o755)
 
 	var ledger Ledger
